@@ -30,7 +30,7 @@ class Collector(cachesys.Collector):
   pass
 
 
-def explore(ctx, wm, cfg, r_ops, faults, preexisting, bound, nrandom, limit, sink, segments=None):
+def explore(ctx, wm, cfg, r_ops, faults, preexisting, bound, nrandom, limit, sink, segments=None, plans=None):
   def run_once(chooser):
     run = writersys.WriterRun(wm, cfg, r_ops, faults=faults, preexisting=preexisting)
     try:
@@ -57,6 +57,24 @@ def explore(ctx, wm, cfg, r_ops, faults, preexisting, bound, nrandom, limit, sin
     if run_once.last is None:
       return n
     sink(run_once.last, dict(base, segments=[list(x) for x in seg], kind='segments'))
+  # landmark plans: (thread, condition) phases, see sched.landmark_chooser
+  holder = {}
+  for plan in (plans or ()):
+    def run_plan(chooser_factory):
+      run = writersys.WriterRun(wm, cfg, r_ops, faults=faults, preexisting=preexisting)
+      holder['run'] = run
+      try:
+        tr, log = run.execute(sched.landmark_chooser(lambda: holder['run'].sched, plan, phase_cap=500))
+      except (sched.Blocked, sched.Deadlock, sched.StepLimit) as e:
+        ctx.violation('a thread of the cache daemon never finishes (%s: %s): what is cached is never written' % (type(e).__name__, e),
+                      dict(base, plan=[[p[0], list(p[1])] for p in plan]), signature='hang')
+        return None
+      return tr
+    tr = run_plan(None)
+    n += 1
+    if tr is None:
+      return n
+    sink(tr, dict(base, kind='plan', plan=[[p[0], list(p[1])] for p in plan]))
   for i in range(nrandom):
     seed = ctx.rng.randrange(1 << 30)
     rr = random.Random(seed)
@@ -76,6 +94,8 @@ def rerun(wm, origin):
                             preexisting=tuple(origin['preexisting']))
   if origin['kind'] == 'bounded':
     ch = sched.forced_chooser(dict((int(s), t) for s, t in origin['forced']))
+  elif origin['kind'] == 'plan':
+    ch = sched.landmark_chooser(lambda: run.sched, [(p[0], tuple(p[1])) for p in origin['plan']], phase_cap=500)
   elif origin['kind'] == 'segments':
     ch = sched.segment_chooser([tuple(x) for x in origin['segments']])
   else:
@@ -98,6 +118,10 @@ def report(ctx, col, verdicts, pid):
       ctx.nontriv(i)
     if nfault:
       ctx.cov['traces_with_faults'] = ctx.cov.get('traces_with_faults', 0) + 1
+    for m, ts, vid in tr.get('lost', ())[:1]:
+      ctx.violation('a datapoint handed to MetricCache.store() (metric m%d, id %d) was not in the cache when store() released the lock, although '
+                    'the cache is unbounded: it is neither cached nor written nor accounted for' % (m, vid),
+                    dict(origin=col.origins[i], lost=tr['lost'], events=[e for e in evs if e['k'] != 'cnt'][:30]), signature='storelost')
     for f in sorted(verdicts[i] & FLAGS[pid]):
       ctx.violation(WHAT[f], dict(origin=col.origins[i], trace=tr, flags=sorted(verdicts[i])), signature=f)
     if 'heldmismatch' in verdicts[i]:
